@@ -155,6 +155,11 @@ pub assume_specification [std::str::from_utf8] (v: &[u8]) -> (r: std::result::Re
 pub uninterp spec fn cow_ref<'a, 'b, B: ?Sized + ToOwned>(c: &'b std::borrow::Cow<'a, B>) -> &'b B;
 pub assume_specification<'a, 'b, B: ?Sized + ToOwned> [<std::borrow::Cow<'a, B> as std::ops::Deref>::deref] (c: &'b std::borrow::Cow<'a, B>) -> (r: &'b B)
     ensures r == cow_ref(c);
+// str trimming (uninterpreted: nothing says a trimmed text is the document, or may be handed to serde_yaml)
+pub uninterp spec fn str_trimmed<'a>(s: &'a str, how: int) -> &'a str;
+pub assume_specification<'a> [str::trim_end] (s: &'a str) -> (r: &'a str) ensures r == str_trimmed(s, 1);
+pub assume_specification<'a> [str::trim_start] (s: &'a str) -> (r: &'a str) ensures r == str_trimmed(s, 2);
+pub assume_specification<'a> [str::trim] (s: &'a str) -> (r: &'a str) ensures r == str_trimmed(s, 3);
 // a text that may be handed to serde_yaml as it is: the UTF-8 encoding of a YAML stream (F2), or a chunk cut by the chunker
 pub uninterp spec fn yaml_text_ok(s: &str) -> bool;
 
